@@ -23,3 +23,31 @@ Print Assumptions C02_compose_roundtrip.
 (* manifest level (cell placement, no image gained or lost, byte-identical second write): decided by the
    roundtrip_images correspondence and the implementation-side oracle; the Coq statement over whole manifests
    - load_images (dump_images m) = Ok (sort_cells m) for m reachable by add - is not yet proved (partial). *)
+
+(* the whole manifest: every cell is read back with exactly its images (ordered by path, which is how they are written), cells
+   without images are not written, the compose section is intact; the hypotheses hold for every manifest built by add calls *)
+From PM Require Import Proofs.ImagesManifest Proofs.CommonProofs Proofs.ImagesProofs.
+Theorem C02_manifest_roundtrip :
+  forall st doc, wf_images st -> ser_images st = Ok doc ->
+  exists st', deser_images doc = Ok st' /\ im_compose st' = im_compose st /\
+              vals (im_cells st') = canon (vals (im_cells st)).
+Proof. exact images_manifest_roundtrip. Qed.
+Print Assumptions C02_manifest_roundtrip.
+
+Theorem C02_manifest_second_write :
+  forall st doc, wf_images st -> ser_images st = Ok doc ->
+  exists st', deser_images doc = Ok st' /\ ser_images st' = Ok doc.
+Proof. exact images_manifest_second_write. Qed.
+Print Assumptions C02_manifest_second_write.
+
+Theorem C02_reachable_manifests_are_well_formed :
+  forall vt compose ops,
+  vt_leb (1, 1) vt = true -> compose_normal compose -> (forall op, In op ops -> image_normal (snd (snd op))) ->
+  wf_images {| im_version := current_version; im_compose := compose; im_cells := fold_left (apply_add vt) ops [] |}.
+Proof. exact reach_wf. Qed.
+Print Assumptions C02_reachable_manifests_are_well_formed.
+
+(* nothing gained or lost: the written view holds exactly the manifest's images, cell by cell *)
+Theorem C02_cells_keep_their_images : forall os, Permutation.Permutation os (sort_objs os).
+Proof. exact sort_objs_perm. Qed.
+Print Assumptions C02_cells_keep_their_images.
